@@ -1,0 +1,29 @@
+//go:build verif
+
+package node
+
+// Contracts for the verification framework in /verif (comment-only file; it
+// contains no code and is excluded from normal builds by the build tag).
+
+// ---- C15: supervision gates ----
+
+//@ func (s *Supervisor) min() (r int)
+//@   props C15
+//@   ensures capped: r == (s.Min > s.Max ? s.Max : s.Min) && r <= s.Max && r <= s.Min
+
+//@ func (s *Supervisor) readyWorkers() (ret []*workerInfo)
+//@   trusted reads worker RPC machines (network machines of other processes); used only through its result
+//@   pure
+
+//@ func (s *Supervisor) PoolReadyEnter(e *am.Event) (r bool)
+//@   props C15
+//@   ensures gate: r <==> len(s.readyWorkers()) >= (s.Min > s.Max ? s.Max : s.Min)
+
+//@ func (s *Supervisor) PoolReadyExit(e *am.Event) (r bool)
+//@   props C15
+//@   ensures gate: r <==> len(s.readyWorkers()) < (s.Min > s.Max ? s.Max : s.Min)
+
+//@ func (s *Supervisor) ForkWorkerEnter(e *am.Event) (r bool)
+//@   props C15
+//@   ensures gate: r <==> maplen(s.workers) < s.Max
+
